@@ -98,14 +98,17 @@ let gen_seq st backend cap nops =
 let gen st tier =
   let thorough = tier = "thorough" in
   let mem = List.init (if thorough then 30000 else 1500) (fun _ -> gen_seq st "mem" (rnd_pick st [ 1; 4096; 5000 ]) (4 + rnd_int st 22)) in
-  let file = List.init (if thorough then 30 else 3) (fun _ -> gen_seq st "file" 1 (5 + rnd_int st 6)) in
+  let file = List.init (if thorough then 60 else 5) (fun _ -> gen_seq st "file" 1 (5 + rnd_int st 6)) in
   mem @ file
 
 let mk backend cap raw = let (ops, expected) = simulate backend cap raw in { backend; cap; ops; expected }
 let corpus = [
   mk "mem" 1 [ W (1, 5000); R 10; B; A; R 5000; R 5000; CW None; R 1; R 1 ];
   mk "mem" 1 [ R 10; W (2, 3); W (3, 4096); W (4, 1); R 4096; CR (Some 7); W (5, 1); B; A ];
-  mk "mem" 1 [ R 0; W (1, 0); CW (Some 3); R 0; R 5; W (2, 2) ] ]
+  mk "mem" 1 [ R 0; W (1, 0); CW (Some 3); R 0; R 5; W (2, 2) ];
+  (* file-backed ring (4 MiB): the write position wraps while unread bytes are buffered *)
+  mk "file" 1 [ W (1, 3145728); R 2097152; W (2, 2097152); B; A; CW None; R 3145728; R 1 ];
+  mk "file" 1 [ W (3, 4194304); R 1000000; W (4, 999999); R 4194304; W (5, 3000000); R 3000000; R 4194303; B ] ]
 
 let op_str (op, flags) =
   (match op with
